@@ -301,3 +301,28 @@ SPECS["C13"] = {
     "assumptions": ["program set of six", "pre-emptions only at sites the lockset pass reports", "sequential consistency"],
     "outside": ["3+ concurrent parses", "arbitrary programs", "imports from sinks"],
 }
+
+_C12 = ["interpreter/common.go", "interpreter/c12.go"]
+SPECS["C12"] = {
+    "explanation": "Real parser + mutexRuntime.Eval: T goroutines evaluate an ECAL function with a mutex block (name symbolic) inside a loop inside a function, a nested "
+                   "block of the same name, and a symbolic exit kind (fall through, error, return, break, continue); thread ids are symbolic and pairwise distinct; "
+                   "Go probes count occupancy per name; every scheduling decision at a sync operation is a symbolic variable under a pre-emption budget.",
+    "level_text": "bounded: T threads x 5 exit kinds x 2 names x all distinct thread ids in 0..3 x all schedules with <= P pre-emptions: exclusion, re-entrancy, release on every exit (later entrant, deadlock verdict), no lost update",
+    "level_note": "trusts go/ssa, gosym scheduler and sync model, z3; T<=2 (quick) / 3, P<=2, nesting depth 2",
+    "harnesses": [
+        {"name": "H1-threads-2", "pkg": "interpreter", "files": _C12, "fn": "VerifC12Mutex",
+         "what": "2 threads, 2 names, 5 exit kinds, tids in 0..3, P pre-emptions", "reach": ["all-done", "later-entrant-done"],
+         "quick": {"params": {"T": 2, "P": 1, "NAMES": 1, "TIDS": 2, "EXITS": 5}, "unwind": 60, "wall_s": 900},
+         "thorough": {"params": {"T": 2, "P": 2, "NAMES": 2, "TIDS": 3, "EXITS": 5}, "unwind": 60, "wall_s": 3600}},
+        {"name": "H1-two-names", "pkg": "interpreter", "files": _C12, "fn": "VerifC12Mutex",
+         "what": "2 threads, 2 names, fall-through exits: different names overlap (reachability), same names exclude", "reach": ["all-done", "later-entrant-done", "different-names-overlap"],
+         "quick": {"params": {"T": 2, "P": 1, "NAMES": 2, "TIDS": 3, "EXITS": 1}, "unwind": 60, "wall_s": 900},
+         "thorough": None},
+        {"name": "H1-threads-3", "pkg": "interpreter", "files": _C12, "fn": "VerifC12Mutex",
+         "what": "3 threads on one name, P=1", "reach": ["all-done", "later-entrant-done"],
+         "quick": None,
+         "thorough": {"params": {"T": 3, "P": 1, "NAMES": 1}, "unwind": 60, "wall_s": 3000}},
+    ],
+    "assumptions": ["pre-emptions only at sync operations (the probes add one inside each block)", "sequential consistency"],
+    "outside": ["> 3 threads", "nesting > 2", "threads created via sinks on pool workers (same mutexRuntime code, tids from the pool)"],
+}
